@@ -1,4 +1,7 @@
 import SF.Props.C05
+#print axioms SF.C05.rsi_eq
+#print axioms SF.C05.myrsi_eq
+#print axioms SF.C05.myrsi_hold_step
 #print axioms SF.C05.changes_neg
 #print axioms SF.C05.gains_neg
 #print axioms SF.C05.losses_neg
